@@ -107,11 +107,18 @@ META = {
                 "number of restarts; with budgets of several hundred seconds and instantly crashing workers it would "
                 "reach the interpreter's recursion limit, which MasterProcess.get_result turns into an ERROR result)",
                 "Float64 rounding (SMT side lemma)"],
-    "assumptions": ["the clock strictly increases while a worker runs (life time >= 1/8 s)",
+    "assumptions": ["the clock strictly increases while a worker runs (life time >= 1/8 s; the SMT lemma assumes >= 2**-20 s)",
                     "under CrossHair int(x) of a real-model symbolic float is computed symbolically (truncation toward "
                     "zero) instead of being realised (patch in harness/_C33_stubs.py)",
                     "to the master, a dying worker is observable only through recv() raising and through the clock"],
 }
+
+
+def h_replay_adjust(cur: int, e_raw: int) -> bool:
+    """Concrete replay of an SMT model of the search-time lemma on the real method."""
+    from harness import _E2_lemmas as L
+
+    return L.replay_adjust(cur, e_raw)
 
 
 def obligations(tier: str):
@@ -128,7 +135,9 @@ def obligations(tier: str):
         obs.append(Chx("crashes_all3", h_crashes, timeout=TO, fix={"fmax": 7, "T": 3, "use_mw": True},
                        split={"o0": list(range(8)), "o1": list(range(8))}))
         obs.append(Chx("crashes_mid", h_crashes, timeout=TO, fix={"fmax": 3}, split={"T": [3, 4, 5, 6], "use_mw": [True, False]}))
-    # >>> SMT side lemma (added by the main session): Float64 obligations for
-    # >>> RunningTask._adjust_search_time_after_crash, e.g. int(max(cur - e, 0.0)) < cur for Float64 e > 0,
-    # >>> cur in [1, 2**31): append `Smt(...)` objects to `obs` here.
+    # E2 (py2smt): Float64-exact lemma for RunningTask._adjust_search_time_after_crash, encoded from its source:
+    # for every budget cur in [1, 2**31) and every elapsed time e >= 2**-20 s the new budget is an int in [0, cur).
+    from harness import _E2_lemmas as L
+
+    obs += L.adjust_obligations(tier, h_replay_adjust)
     return obs
